@@ -289,6 +289,11 @@ func (ws *writeSet) absorb(sub *writeSet) {
 	}
 	for m := range sub.mems {
 		ws.mems[m] = true
+		// written by other code: not confined to the regions of this code's own slices
+		if ws.whole == nil {
+			ws.whole = map[string]bool{}
+		}
+		ws.whole[m] = true
 	}
 	if sub.foreign {
 		ws.foreign = true
